@@ -104,14 +104,37 @@ ITYPES = ["AluBinary", "AluUnary", "LoadImm", "LoadAbs", "LoadInd", "LoadReg", "
 
 
 def encode_paths(F, ev, itype, shape):
-    enc = [p for p, fn in F.fns.items() if p.startswith("assembler::") and fn.get("params") and len(fn["params"]) == 3
-           and fn["params"][0].endswith("InstructionType") and "Insn" in fn.get("ret", "")]
+    """the function that places operands into an Insn, found by what it takes (an instruction type, a base opcode and the
+    operand list - directly or packed in a private struct) and returns (Result<Insn, _>)"""
+    def flat_tys(ty, depth=0):
+        adt = F.adts.get(ty)
+        if adt and adt.get("kind") == "struct" and depth < 2:
+            return [t for f in adt["variants"][0]["fields"] for t in flat_tys(f["ty"], depth + 1)]
+        return [ty]
+    enc = []
+    for p, fn in F.fns.items():
+        if not (p.startswith("assembler::") and fn.get("params") and "Insn" in fn.get("ret", "") and "Vec<" not in fn.get("ret", "")):
+            continue
+        tys = [t for q in fn["params"] for t in flat_tys(q)]
+        if sum(t.endswith("InstructionType") for t in tys) == 1 and sum(t == "u8" for t in tys) == 1 and sum("[asm_parser::Operand]" in t for t in tys) == 1 \
+                and len(tys) == 3:
+            enc.append(p)
     if len(enc) != 1:
         return None, "encode candidates: %s" % enc
     payload = (("0", T.V("SIZE", 64)),) if itype == "Endian" else ()
     ity = symex.struct(ITYPE, itype, payload)
     ops = ("array", tuple(operand(k, i) for i, k in enumerate(shape)))
-    outs = ev.run_fn(enc[0], [ity, T.V("opc", 8), ops])
+
+    def arg_for(ty, depth=0):
+        adt = F.adts.get(ty)
+        if adt and adt.get("kind") == "struct" and depth < 2:
+            return symex.struct(ty, adt["variants"][0]["name"], tuple((f["name"], arg_for(f["ty"], depth + 1)) for f in adt["variants"][0]["fields"]))
+        if ty.endswith("InstructionType"):
+            return ity
+        if ty == "u8":
+            return T.V("opc", 8)
+        return ops
+    outs = ev.run_fn(enc[0], [arg_for(q) for q in F.fns[enc[0]]["params"]])
     return outs, enc[0]
 
 
